@@ -43,7 +43,7 @@ def gen_table(rng):
     ncols = rng.randint(1, 6)
     nrows = rng.choice([0, 1, 2, 3, 5, 8, 13, 30, 60])
     names = rng.sample(HEADERS, ncols)
-    missing = rng.choice([None, 0, -9999, -9999, 99, "only-other", "everywhere"])
+    missing = rng.choice([None, 0, -9999, -9999, 99, "only-other", "everywhere", "fractional"])
     cols = []
     for ci in range(ncols):
         integer = rng.random() < 0.4
@@ -61,6 +61,16 @@ def gen_table(rng):
             for r in range(nrows):
                 if rng.random() < 0.3:
                     c["data"][r] = 424242 if c["integer"] else 424242.0
+    elif missing == "fractional":
+        # a marker that is not a whole number, next to cells holding the whole number below it
+        mv = -9999.5
+        for c in cols:
+            for r in range(nrows):
+                k_ = rng.random()
+                if k_ < 0.2:
+                    c["data"][r] = -9999 if c["integer"] else -9999.5
+                elif k_ < 0.4:
+                    c["data"][r] = -9999 if c["integer"] else -9999.0
     elif missing == "everywhere":
         mv = 7
         for c in cols:
@@ -148,12 +158,17 @@ class _Collector(object):
         self.out.append(s)
 
 
+_reads = {"n": 0}
+
+
 def _read(prog, path, name, header, dtype, missing):
     args = {"InFileName": path, "InFieldName": header}
     if dtype:
         args["DataType"] = dtype
     if missing is not None:
-        args["MissingVal"] = missing
+        _reads["n"] += 1
+        # every third read hands the marker over as a NumPy scalar (the programming interface is given what the caller has)
+        args["MissingVal"] = numpy.float32(missing) if _reads["n"] % 3 == 0 and float(numpy.float32(missing)) == float(missing) else numpy.float64(missing) if _reads["n"] % 3 == 1 and isinstance(missing, float) else missing
     return arr.invoke(prog, "EEMSRead", name, args)
 
 
